@@ -22,13 +22,26 @@ Proof.
   - change 8191 with (2 ^ 13 - 1). rewrite land_ones_mod by lia. reflexivity.
 Qed.
 
-Lemma ioprio_pack_roundtrip c d : 0 <= c < 2 ^ 18 -> 0 <= d < 2 ^ 13 ->
-  exists raw, ioprio_pack c d = Some raw /\ -2 ^ 31 <= raw < 2 ^ 31 /\ ioprio_unpack raw = (c, d).
+Lemma ioprio_pack_small c d : 0 <= c < 2 ^ 18 -> 0 <= d < 2 ^ 13 -> ioprio_pack c d = c * 8192 + d.
 Proof.
-  intros Hc Hd. exists (c * 8192 + d). unfold ioprio_pack, ioprio_unpack.
-  replace ((0 <=? c) && (c <? 2 ^ 18)) with true by (symmetry; apply andb_true_iff; split; [apply Z.leb_le|apply Z.ltb_lt]; lia).
-  rewrite pack_arith by lia. split; [reflexivity|]. split; [lia|].
-  destruct (unpack_arith (c * 8192 + d)) as [-> ->].
+  intros Hc Hd. unfold ioprio_pack, u32, s32.
+  change (2 ^ 18) with 262144 in Hc. change (2 ^ 13) with 8192 in Hd.
+  change (2 ^ 32) with 4294967296. change (2 ^ 31) with 2147483648.
+  rewrite (Z.mod_small c) by lia. rewrite (Z.mod_small (c * 8192)) by lia. rewrite (Z.mod_small d) by lia.
+  assert (E : Z.lor (c * 8192) d = c * 8192 + d)
+    by (rewrite <- pack_arith by lia; rewrite Z.shiftl_mul_pow2 by lia; reflexivity).
+  rewrite E.
+  replace (c * 8192 + d <? 2147483648) with true by (symmetry; apply Z.ltb_lt; lia). reflexivity.
+Qed.
+
+Lemma ioprio_pack_roundtrip c d : 0 <= c < 2 ^ 18 -> 0 <= d < 2 ^ 13 ->
+  let raw := ioprio_pack c d in
+  raw = c * 8192 + d /\ -2 ^ 31 <= raw < 2 ^ 31 /\ ioprio_unpack raw = (c, d).
+Proof.
+  intros Hc Hd raw. unfold raw. rewrite (ioprio_pack_small c d Hc Hd).
+  change (2 ^ 18) with 262144 in Hc. change (2 ^ 13) with 8192 in Hd.
+  split; [reflexivity|]. split; [change (2 ^ 31) with 2147483648; lia|].
+  unfold ioprio_unpack. destruct (unpack_arith (c * 8192 + d)) as [-> ->].
   f_equal.
   - rewrite Z.div_add_l by lia. rewrite Z.div_small by lia. lia.
   - rewrite Z.add_comm, Z.mod_add by lia. apply Z.mod_small. lia.
@@ -129,7 +142,7 @@ Qed.
 
 (* ------------------------------------------------ valid I/O priorities *)
 Lemma ioprio_valid_ok c lvl : 0 <= c <= 3 -> 0 <= lvl <= 7 -> (c = 0 \/ c = 3 -> lvl = 0) ->
-  ioprio_pack c lvl = Some (c * 8192 + lvl) /\ ioprio_valid (c * 8192 + lvl) = true.
+  ioprio_pack c lvl = c * 8192 + lvl /\ ioprio_valid (c * 8192 + lvl) = true.
 Proof.
   intros Hc Hl H03.
   assert (C : c = 0 \/ c = 1 \/ c = 2 \/ c = 3) by lia.
